@@ -472,6 +472,10 @@ class StridedInterval:
             lb_2 = ssplit[1].lower_bound
             ub_2 = ssplit[1].upper_bound
 
+            if lb_2 > ub_2:
+                # the upper bound is not a member: the piece beyond the south pole begins after it and holds no member
+                return [(lb_1, ub_1)]
+
             return [(lb_1, ub_1), (lb_2, ub_2)]
 
         raise ClaripyVSAError("WTF")
